@@ -4,9 +4,15 @@ from .scopegen import gen_scope_ops
 THEOREMS = [
     "BSVerif.Props.C20.no_terminate",
     "BSVerif.Props.C20.error_surfaces",
+    "BSVerif.Props.C20.deferred_error_surfaces",
+    "BSVerif.Props.C20.deferred_never_completes",
+    "BSVerif.Props.C20.exception_is_genuine",
     "BSVerif.Props.C20.throwing_dtor_terminates",
-    "BSVerif.Props.C20.fallible_dtors_are_the_recorded_ones",
-    "BSVerif.Props.C20.root_and_base_dtors_infallible",
+    "BSVerif.Props.C20.first_deferred_error_is_kept",
+    "BSVerif.Props.C20.dtors_cannot_let_exceptions_escape",
+    "BSVerif.Props.C20.deferring_dtors_are_the_three_scopes",
+    "BSVerif.Props.C20.dtor_inventory",
+    "BSVerif.Props.C20.csv_deferred_save_eq",
 ]
 RULE = ("fault enumeration on 16 scenarios (load/save x MsgPack/JSON/XML/CSV x memory/stream of a nested class with strings, vector, map, "
         "optional; CSV rows): every truncation length of each sample document (memory and stream), the k-th operator new failing for every "
@@ -29,8 +35,9 @@ def nontrivial(op, impl):
 def gen(tier, rng, boost=1):
     ops = []
     q = tier == "quick"
-    for arch, n in (("mp", 140), ("mpvec", 20), ("csv", 420), ("json", 260), ("xml", 420)):
-        ks = range(0, n) if not q else sorted(set(list(range(0, min(n, 60))) + rng.sample(range(n), min(n, 40))))
+    for arch, n in (("mp", 140), ("mpvec", 20), ("mpx", 178), ("mptup", 66), ("csv", 420), ("json", 260), ("xml", 420)):
+        ks = range(0, n) if not q else sorted(set(list(range(0, min(n, 60))) + rng.sample(range(n), min(n, 40)) +
+                                                    (list(range(max(0, n - 66), n)) if arch in ("mpx", "mptup") else [])))
         for k in ks:
             for src in ("mem", "stream"):
                 ops.append(f"fault.trunc {arch} {src} @ {k}")
@@ -47,6 +54,19 @@ def gen(tier, rng, boost=1):
     for arch in ("mp", "json", "xml", "csv"):
         for st in ("fail", "eof", "unopened"):
             ops.append(f"fault.preset {arch} {st}")
+    # the deferred-error slot of SerializationContext on its own: first error kept, rethrown exactly once
+    classes = ["parsing", "ser_out_of_range", "mismatched", "overflow", "utf", "bad_alloc", "out_of_range"]
+    ops.append("fault.defer -")
+    for a in classes:
+        ops.append(f"fault.defer {a}")
+        for b in classes:
+            if a != b:
+                ops.append(f"fault.defer {a} {b}")
+    for _ in range(20 if q else 300):
+        ops.append("fault.defer " + " ".join(rng.choice(classes + ["-"]) for _ in range(rng.randrange(3, 7))))
+    # scope histories over documents cut at a token boundary: every scope that is closed over the missing part fails in its
+    # destructor's skip loop; the model (deferred-error path of Scope/Model.lean) must agree answer by answer
+    ops += gen_scope_ops(tier, rng, boost, count=(250 if q else 5000) * boost, truncated=1.0)
     # options the library itself rejects while the root scope is being set up (exception expected, nothing leaked)
     seps = list(range(1, 128)) if not q else sorted({44, 59, 9, 32, 124, 120, 58, 35, 34, 10, 13, 65, 48, 46, 1, 127} | set(rng.sample(range(1, 128), 8)))
     for sc in ("csv_load_mem", "csv_load_stream", "csv_save_mem", "csv_save_stream"):
